@@ -5,8 +5,16 @@
   Code ↦ model
     LockedMachine.__init__      `machine_context = listify(arg) or [PicklableLock()]`, then
                                 `.append(self._ident)`                          ↦ `Cfg.mctx`
-    LockedMachine.add_model     `model_context_map[id(m)] = machine_context + model_context`
-                                                                               ↦ `Cfg.cmap`
+    LockedMachine.add_model     `if not model_context_map[id(m)]: extend(machine_context);
+                                extend(model_context)` — a registered model keeps its contexts
+                                                                               ↦ `Op.reg`, `LState.cmap`
+    LockedMachine.remove_model  `del model_context_map[id(m)]`                 ↦ `Op.unreg`
+    model_context_map           a `defaultdict(list)`: reading a missing key yields (and stores) an
+                                empty list.  Nothing in the code distinguishes "no entry" from "empty
+                                entry" except `del` raising KeyError (the `ret` op of the program says
+                                whether a call raises), so both are `cmap m = []`; in particular an
+                                event on an unregistered model (which creates the empty entry) leaves
+                                `cmap` unchanged                               ↦ `LState.cmap`
     LockedEvent.trigger         `if machine._ident.current != get_ident(): with nested(*cmap[m])`
     LockedMachine._locked_method `if _ident.current != get_ident(): with nested(*machine_context)`
                                                                                ↦ `Op.call`, `ctxsFor`
@@ -53,6 +61,10 @@ inductive Op
   | cb (a : Nat)
   /-- the innermost open call ends (returns, or raises when `raised`) -/
   | ret (raised : Bool)
+  /-- inside `machine.add_model(m, model_context=xs)`: the update of `model_context_map` -/
+  | reg (m : Nat) (xs : List Ctx)
+  /-- inside `machine.remove_model(m)`: `del model_context_map[id(m)]` -/
+  | unreg (m : Nat)
   deriving DecidableEq, Repr, Inhabited
 
 def alookupD (k : Nat) : List (Nat × List Ctx) → List Ctx
@@ -66,6 +78,8 @@ structure Cfg where
   base : List Ctx
   /-- the `model_context` given to `add_model`, per model -/
   extra : List (Nat × List Ctx)
+  /-- models that are NOT registered initially (every other model is) -/
+  absent : List Nat := []
 
 /-- `listify(machine_context) or [PicklableLock()]` -/
 def Cfg.mbase (c : Cfg) : List Ctx := if c.base.isEmpty then [Ctx.lock 0] else c.base
@@ -73,8 +87,11 @@ def Cfg.mbase (c : Cfg) : List Ctx := if c.base.isEmpty then [Ctx.lock 0] else c
 /-- `self.machine_context` after `__init__` (`.append(self._ident)`) -/
 def Cfg.mctx (c : Cfg) : List Ctx := c.mbase ++ [Ctx.ident]
 
-/-- `self.model_context_map[id(m)]` after one `add_model` -/
+/-- `self.model_context_map[id(m)]` after `add_model(m, model_context=extra m)` -/
 def Cfg.cmap (c : Cfg) (m : Nat) : List Ctx := c.mctx ++ alookupD m c.extra
+
+/-- the initial `model_context_map` -/
+def Cfg.cmap0 (c : Cfg) (m : Nat) : List Ctx := if c.absent.contains m then [] else c.cmap m
 
 /-- the machine contexts contain the mutex `L`; the machine's own IdentManager is not among the
 user supplied contexts -/
@@ -83,22 +100,25 @@ def WF (c : Cfg) (L : Nat) : Prop :=
 
 instance (c : Cfg) (L : Nat) : Decidable (WF c L) := by unfold WF; infer_instance
 
-/-- the contexts a non re-entrant call enters.
+/-- the contexts a non re-entrant call enters, given the current `model_context_map`.
   * public machine method: `_locked_method` → `machine_context`;
-  * event on a flat machine: `LockedEvent.trigger` → `model_context_map[id(model)]`;
+  * event on a flat machine: `LockedEvent.trigger` → `model_context_map[id(model)]` (empty for a
+    model that is not registered: the event then runs without any context);
   * event on a hierarchical machine: the model's trigger is the public `trigger_event`, wrapped by
     `LockedHierarchicalMachine._locked_method`:
     `contexts = self.model_context_map.get(id(model)) or self.machine_context`. -/
-def ctxsFor (c : Cfg) (tgt : Nat) : List Ctx :=
+def ctxsFor (c : Cfg) (cmap : Nat → List Ctx) (tgt : Nat) : List Ctx :=
   match tgt with
   | 0 => c.mctx
-  | m + 1 => if c.hsm then (if (c.cmap m).isEmpty then c.mctx else c.cmap m) else c.cmap m
+  | m + 1 => if c.hsm then (if (cmap m).isEmpty then c.mctx else cmap m) else cmap m
 
-/-- what the statement asks for: every machine and model context -/
-def configured (c : Cfg) (tgt : Nat) : List Ctx :=
-  match tgt with
-  | 0 => c.mctx
-  | m + 1 => c.cmap m
+/-- `add_model(m, model_context=xs)` on the map: a registered model keeps its contexts -/
+def regMap (c : Cfg) (cmap : Nat → List Ctx) (m : Nat) (xs : List Ctx) : Nat → List Ctx :=
+  if (cmap m).isEmpty then fun i => if i = m then c.mctx ++ xs else cmap i else cmap
+
+/-- `remove_model(m)` on the map -/
+def unregMap (cmap : Nat → List Ctx) (m : Nat) : Nat → List Ctx :=
+  fun i => if i = m then [] else cmap i
 
 inductive Ev
   | callBegin (t tgt tag : Nat)
@@ -106,6 +126,8 @@ inductive Ev
   | cb (t a : Nat)
   | exit (t : Nat) (x : Ctx)
   | callEnd (t : Nat) (raised : Bool)
+  | reg (t m : Nat) (xs : List Ctx)
+  | unreg (t m : Nat)
   deriving DecidableEq, Repr, Inhabited
 
 structure Thread where
@@ -127,6 +149,11 @@ structure LState where
   current : Nat
   /-- the shared machine state (opaque) -/
   mstate : Nat
+  /-- `model_context_map` (`[]` = no / empty entry) -/
+  cmap : Nat → List Ctx
+  /-- ghost: some outermost call has entered NO context at all (an event on a model that was not
+      registered at that moment, flat machine) — such runs are outside the property's statement -/
+  ung : Bool := false
   trace : List Ev
 
 def setTh (s : LState) (t : Nat) (x : Thread) : LState :=
@@ -168,8 +195,9 @@ def step (c : Cfg) (eng : Nat → Nat → Nat) (s : LState) (t : Nat) : LState :
       if s.current = t + 1 then
         emit (setTh s t { th with prog := p, frames := [] :: th.frames }) (.callBegin t tgt tag)
       else
-        emit (setTh s t { th with prog := p, frames := [] :: th.frames, pend := ctxsFor c tgt })
-          (.callBegin t tgt tag)
+        let l := ctxsFor c s.cmap tgt
+        emit (setTh { s with ung := s.ung || l.isEmpty } t
+          { th with prog := p, frames := [] :: th.frames, pend := l }) (.callBegin t tgt tag)
     | .cb a :: p =>
       match th.frames with
       | [] => s     -- malformed program (engine step outside any call): the thread is stuck
@@ -180,12 +208,26 @@ def step (c : Cfg) (eng : Nat → Nat → Nat) (s : LState) (t : Nat) : LState :
       | [] :: fs => emit (setTh s t { th with prog := p, frames := fs, exiting := false }) (.callEnd t r)
       | (x :: f) :: fs =>
         emit (setTh (exitCtx s x) t { th with frames := f :: fs, exiting := true }) (.exit t x)
+    | .reg m xs :: p =>
+      match th.frames with
+      | [] => s     -- malformed program: stuck
+      | _ :: _ =>
+        emit (setTh { s with cmap := regMap c s.cmap m xs } t { th with prog := p }) (.reg t m xs)
+    | .unreg m :: p =>
+      match th.frames with
+      | [] => s     -- malformed program: stuck
+      | _ :: _ => emit (setTh { s with cmap := unregMap s.cmap m } t { th with prog := p }) (.unreg t m)
 
 def runSched (c : Cfg) (eng : Nat → Nat → Nat) (s : LState) (σ : List Nat) : LState :=
   σ.foldl (step c eng) s
 
-def init (progs : Nat → List Op) (ms : Nat) : LState :=
-  { th := fun t => { prog := progs t }, owner := fun _ => 0, current := 0, mstate := ms, trace := [] }
+def init (c : Cfg) (progs : Nat → List Op) (ms : Nat) : LState :=
+  { th := fun t => { prog := progs t }, owner := fun _ => 0, current := 0, mstate := ms,
+    cmap := c.cmap0, trace := [] }
+
+/-- the user cannot hand the machine's own IdentManager to `add_model` -/
+def ProgOK (progs : Nat → List Op) : Prop :=
+  ∀ t m xs, Op.reg m xs ∈ progs t → Ctx.ident ∉ xs
 
 /-- thread `t` cannot move: it waits for a lock -/
 def blocked (s : LState) (t : Nat) : Bool :=
@@ -224,8 +266,9 @@ structure MonSt where
 
 /-- the grammar of one thread's events:
     outermost call  = callBegin · enter x₁ … enter xₙ · body · exit xₙ … exit x₁ · callEnd
-                      with x₁ … xₙ = the configured contexts of the call's target, in order
-    body            = ( cb | callBegin · body · callEnd )*        (re-entrant calls enter nothing) -/
+                      with x₁ … xₙ = the contexts configured for the call's target at that moment
+                      (`exp`), in order
+    body            = ( cb | reg | unreg | callBegin · body · callEnd )*   (re-entrant calls enter nothing) -/
 def ctxStep (exp : Nat → List Ctx) (m : MonSt) (e : Ev) : Option MonSt :=
   match e with
   | .callBegin _ tgt _ =>
@@ -236,6 +279,8 @@ def ctxStep (exp : Nat → List Ctx) (m : MonSt) (e : Ev) : Option MonSt :=
     | y :: r => if x = y ∧ m.depth = 1 then some { m with pe := r, st := x :: m.st } else none
     | [] => none
   | .cb _ _ => if m.depth ≥ 1 ∧ m.pe = [] ∧ m.ex = false then some m else none
+  | .reg _ _ _ => if m.depth ≥ 1 ∧ m.pe = [] ∧ m.ex = false then some m else none
+  | .unreg _ _ => if m.depth ≥ 1 ∧ m.pe = [] ∧ m.ex = false then some m else none
   | .exit _ x =>
     match m.st with
     | y :: r => if x = y ∧ m.depth = 1 ∧ m.pe = [] then some { m with st := r, ex := true } else none
@@ -247,26 +292,48 @@ def ctxStep (exp : Nat → List Ctx) (m : MonSt) (e : Ev) : Option MonSt :=
 
 def Ev.tid : Ev → Nat
   | .callBegin t _ _ => t | .enter t _ => t | .cb t _ => t | .exit t _ => t | .callEnd t _ => t
+  | .reg t _ _ => t | .unreg t _ => t
 
-def ctxMonStep (exp : Nat → List Ctx) (st : Option (Nat → MonSt)) (e : Ev) : Option (Nat → MonSt) :=
+/-- the monitor's own record of which contexts are configured per model: `add_model(m, xs)` of a
+model that is not registered configures `machine contexts ++ xs`, of a registered one changes
+nothing; `remove_model(m)` removes the configuration -/
+def cfgStep (c : Cfg) (cm : Nat → List Ctx) (e : Ev) : Nat → List Ctx :=
+  match e with
+  | .reg _ m xs => regMap c cm m xs
+  | .unreg _ m => unregMap cm m
+  | _ => cm
+
+/-- what the statement asks for: every machine context, and for an event every context configured
+for its model, in that order.  (For a model that is not registered nothing is configured; such an
+event is outside the statement and the monitor expects what the code does.) -/
+def configured (c : Cfg) (cm : Nat → List Ctx) (tgt : Nat) : List Ctx :=
+  match tgt with
+  | 0 => c.mctx
+  | m + 1 => if (cm m).isEmpty then (if c.hsm then c.mctx else []) else cm m
+
+structure CtxMon where
+  th : Nat → MonSt
+  cm : Nat → List Ctx
+
+def ctxMonStep (c : Cfg) (st : Option CtxMon) (e : Ev) : Option CtxMon :=
   match st with
   | none => none
   | some f =>
-    match ctxStep exp (f e.tid) e with
+    match ctxStep (configured c f.cm) (f.th e.tid) e with
     | none => none
-    | some m => some (fun i => if i = e.tid then m else f i)
+    | some m => some { th := fun i => if i = e.tid then m else f.th i, cm := cfgStep c f.cm e }
 
-def ctxMonRun (exp : Nat → List Ctx) (tr : List Ev) : Option (Nat → MonSt) :=
-  tr.foldl (ctxMonStep exp) (some fun _ => {})
+def ctxMonRun (c : Cfg) (tr : List Ev) : Option CtxMon :=
+  tr.foldl (ctxMonStep c) (some { th := fun _ => {}, cm := c.cmap0 })
 
 /-- every thread's events follow the grammar (prefix-closed) -/
-def contextsOrder (exp : Nat → List Ctx) (tr : List Ev) : Bool := (ctxMonRun exp tr).isSome
+def contextsOrder (c : Cfg) (tr : List Ev) : Bool := (ctxMonRun c tr).isSome
 
 /-- … and no call is left open by any of the threads `< n` -/
-def contextsOrderDone (exp : Nat → List Ctx) (n : Nat) (tr : List Ev) : Bool :=
-  match ctxMonRun exp tr with
+def contextsOrderDone (c : Cfg) (n : Nat) (tr : List Ev) : Bool :=
+  match ctxMonRun c tr with
   | none => false
-  | some f => (List.range n).all fun t => f t == {}
+  | some f => (List.range n).all fun t => f.th t == {}
 
 /-! ## Sequential reference semantics (what "serial execution" means) -/
 
@@ -282,6 +349,10 @@ def runOps (eng : Nat → Nat → Nat) (t : Nat) : Nat → List Op → Nat → L
   | 0, .ret r :: p, ms, log => (ms, log, .ret r :: p)
   | 1, .ret _ :: p, ms, log => (ms, log, p)
   | d + 2, .ret _ :: p, ms, log => runOps eng t (d + 1) p ms log
+  | 0, .reg m xs :: p, ms, log => (ms, log, .reg m xs :: p)
+  | d + 1, .reg _ _ :: p, ms, log => runOps eng t (d + 1) p ms log
+  | 0, .unreg m :: p, ms, log => (ms, log, .unreg m :: p)
+  | d + 1, .unreg _ :: p, ms, log => runOps eng t (d + 1) p ms log
 
 structure Seq where
   progs : Nat → List Op
